@@ -237,6 +237,13 @@ def run(ctx):
         elif f[0] == "EVALS":
             ctx.cov["evaluations"] += int(f[1])
             ctx.notes["search_evaluations"] = int(f[1])
+    ctx.notes["hygiene_oracles"] = (
+        "harness/c19/hygiene.go (corr and search): parameter-set lists reach Set{AVC,HEVC}Descriptor as private copies with 8 guard "
+        "bytes behind every NAL unit; guards checked, then bytes + spare capacity + outer list entries overwritten before anything is "
+        "read back (aliasing of arguments / writes beyond len); every 4th random history is also built interleaved with another "
+        "history (every 8th: an out-of-scope one with failing calls) on a second InitSegment and twice in a row: same bytes and state "
+        "as built alone (hidden state between calls); a second Encode gives the same bytes and EncodeSW into a writer with 24 spare "
+        "bytes writes exactly Size() bytes. Not demanded: Dac3Box/Dec3Box pointers (a Box handed over becomes a child by contract).")
     # a failing input that is a recorded known finding must not hide a model/implementation mismatch
     new_fails = [f for f in fails if ctx.failing_input(f[1], f[2], f[3], f[4])]
     ctx.log("search: %d failing-input signatures (%d not known)" % (len(fails), len(new_fails)))
